@@ -136,6 +136,22 @@ def boundary_plans(rng) -> List[Dict[str, Any]]:
     for sub in ("badsig", "wrongid", "malformed", "missing", "short", "noenc", "badkey"):
         P.append(new_plan(rng, [op_m1(rng, **c0), op_m3_honest(rng, "ok", **c0), op_m5(rng, "sess", sub, **c0),
                                 op_m5(rng, "sess", "valid", **c0)]))
+    # M3 lacking a field (each A kind) right after a successful / failed M3 of the same exchange, on the same and
+    # on a second connection, followed by M5 under each key a peer could try
+    akinds = [lambda c: op_m3_honest(rng, "ok", conn=c), lambda c: op_m3_honest(rng, "wrong", conn=c),
+              lambda c: op_m3_deg(rng, 1, "min", conn=c), lambda c: op_m3_deg(rng, 0, "empty", conn=c),
+              lambda c: op_m3_deg(rng, 2, "pad", conn=c), lambda c: op_m3_garbage(rng, "randA", conn=c)]
+    for first, conns in (("ok", (0, 1)), ("wrong", (0,))):
+        for c in conns:
+            for mk in akinds:
+                for drop in ("M", "A", "both"):
+                    for key in ("good", "s0", "random"):
+                        m3 = mk(c)
+                        m3["drop"] = drop
+                        P.append(new_plan(rng, [op_m1(rng, **c0), op_m3_honest(rng, first, **c0), m3,
+                                                op_m5(rng, key, "valid", conn=c)]))
+    P.append(new_plan(rng, [op_m1(rng, **c0), op_m3_honest(rng, "ok", **c0), dict(op_m3_deg(rng, 1, "min", conn=1), drop="M"),
+                            op_m5(rng, "lastA", "valid", conn=1)]))
     # dispatch edge cases
     P.append(new_plan(rng, [op_seq(rng, b, **c0) for b in (0, 2, 4, 6, 7, 255, None, "long")] +
                       [op_raw(rng, b"", **c0), op_raw(rng, b"\x06", **c0), op_raw(rng, b"\x06\x05\x01", **c0)]))
@@ -177,7 +193,7 @@ def random_plan(rng) -> Dict[str, Any]:
             ops.append(op_m3_garbage(rng, rng.choice(["noA", "noM", "randA"])))
             n_m3 += 1
         elif r < 0.86:
-            ops.append(op_m5(rng, rng.choice(["sess", "sess", "s0", "s0", "random"]),
+            ops.append(op_m5(rng, rng.choice(["sess", "sess", "good", "s0", "s0", "lastA", "random"]),
                              rng.choice(["valid"] * 6 + ["badsig", "wrongid", "malformed", "missing", "short", "noenc", "badkey"])))
             n_m5 += 1
         elif r < 0.90 and n_m5:
@@ -187,6 +203,11 @@ def random_plan(rng) -> Dict[str, Any]:
             ops.append(op_seq(rng, rng.choice([0, 2, 4, 6, 7, 9, 255, None, "long"])))
         else:
             ops.append(op_raw(rng, _rb(rng, rng.choice([0, 1, 2, 3, 9, 40]))))
+        if ops[-1]["op"] == "M3" and ops[-1]["mode"] in ("honest", "deg", "replay") and rng.random() < 0.2:
+            ops[-1]["drop"] = rng.choice(["M", "M", "A", "both"])
+            if rng.random() < 0.7:   # usually try to cash it in at once, same connection
+                ops.append(op_m5(rng, rng.choice(["good", "s0", "lastA", "sess", "random"]), "valid", conn=ops[-1]["conn"]))
+                n_m5 += 1
     return new_plan(rng, ops, prepaired=rng.random() < 0.05)
 
 
@@ -223,6 +244,9 @@ def run_plan(plan: Dict[str, Any]) -> Dict[str, Any]:
     m3_sent: List[Dict[str, Any]] = []   # {"A","proof","a"}
     m5_sent: List[bytes] = []
     last_client = None    # the latest honest-looking client computation (its K is what a peer "has")
+    good_client = None    # the latest client computation whose M3 demonstrated knowledge (the honest session)
+    last_A_public = False  # the A of the latest M3 that carried one is 0 mod N (its K is public)
+    xch = 0               # number of M2 answers so far = index of the current exchange
     code_key = None       # K of a client that used the CORRECT code on the current exchange's latest M3
     last_m3_kind = "none"
     demo_elsewhere = False
@@ -235,6 +259,7 @@ def run_plan(plan: Dict[str, Any]) -> Dict[str, Any]:
             is_demo = False
             idents = []
             kind = op["op"]
+            m5_key, m5_public = None, False
             if op["op"] == "M1":
                 items = [(pc.T_STATE, b"\x01"), (pc.T_METHOD, b"\x00")]
                 if op.get("extra"):
@@ -247,21 +272,20 @@ def run_plan(plan: Dict[str, Any]) -> Dict[str, Any]:
                     a = int(op["a"], 16)
                     cl = ref.client(code if op["code"] == "ok" else wrong, csalt, cB, a)
                     last_client = cl
-                    code_key = cl.K if (op["code"] == "ok" and cur and op["spell"] == "min") else None
                     A, proof = cl.A_bytes, cl.M1
                     v = op["variant"]
                     proof = {"exact": proof, "empty": b"", "prefix": proof[:-1], "extended": proof + b"\x00",
                              "bitflip": bytes([proof[0] ^ 1]) + proof[1:]}[v]
                     if op["spell"] == "pad":
                         A = b"\x00" + A
-                    m3_sent.append({"A": A, "proof": proof, "a": a})
+                    m3_sent.append({"A": A, "proof": proof, "a": a, "xch": xch})
                     kind = f"M3-honest-{op['code']}-{v}" + ("-padA" if op["spell"] == "pad" else "")
                 elif op["mode"] == "deg":
                     kN = ref.i2b(op["k"] * ref.N)
                     A = {"min": kN, "pad": b"\x00\x00" + kN, "empty": b"", "zero": b"\x00"}[op["spell"]]
                     _, m1, _ = ref.degenerate_proof(csalt, A, cB)
                     proof = m1 if op["proof"] == "s0" else bytes.fromhex(op["rand"])
-                    m3_sent.append({"A": A, "proof": proof, "a": None})
+                    m3_sent.append({"A": A, "proof": proof, "a": None, "xch": xch})
                     kind = f"M3-degenerate-{op['spell']}-{op['proof']}"
                 elif op["mode"] == "replay":
                     if m3_sent:
@@ -270,32 +294,42 @@ def run_plan(plan: Dict[str, Any]) -> Dict[str, Any]:
                         m3_sent.append(dict(old))
                     else:
                         A, proof = b"\x05", b""
-                        m3_sent.append({"A": A, "proof": proof, "a": None})
+                        m3_sent.append({"A": A, "proof": proof, "a": None, "xch": xch})
                 else:
                     rnd = bytes.fromhex(op["rand"])
                     A, proof = rnd, hashlib.sha512(rnd).digest()
-                    m3_sent.append({"A": A, "proof": proof, "a": None})
-                if not (op["mode"] == "garbage" and op["what"] in ("noA", "noM")):
-                    last_m3_kind = "degenerate" if ref.b2i(A) % ref.N == 0 else "other"
-                if op["mode"] != "honest":
-                    code_key = None   # the accessory's session key now belongs to another A
+                    m3_sent.append({"A": A, "proof": proof, "a": None, "xch": xch})
+                drop = op.get("drop") or {"noA": "A", "noM": "M"}.get(op.get("what"))
+                a_sent, m_sent = drop not in ("A", "both"), drop not in ("M", "both")
+                if drop:
+                    kind += "-drop" + drop
+                if a_sent:
+                    # whatever the handler does with the rest, this A may now be the accessory's A
+                    last_A_public = ref.b2i(A) % ref.N == 0
+                    last_m3_kind = "degenerate" if last_A_public else "other"
+                    code_key = (cl.K if (op["mode"] == "honest" and op["code"] == "ok" and cur and op["spell"] == "min")
+                                else None)
                 sent = m3_sent[-1]
-                if cur and sent["a"] is not None:
+                stale = sent["xch"] != xch   # bytes recorded in an earlier exchange: whoever sends them shows nothing now
+                if cur and sent["a"] is not None and a_sent and m_sent and not stale:
                     exp = ref.client(code, cur[0], cur[1], sent["a"])
                     is_demo = ref.b2i(sent["A"]) == ref.b2i(exp.A_bytes) and sent["proof"] == exp.M1
-                if op["mode"] == "garbage" and op["what"] == "noA":
-                    body = tlv8.encode([(pc.T_STATE, b"\x03"), (pc.T_PROOF, proof)])
-                elif op["mode"] == "garbage" and op["what"] == "noM":
-                    body = tlv8.encode([(pc.T_STATE, b"\x03"), (pc.T_PUBLIC_KEY, A)])
-                else:
-                    body = pc.m3_body(A, proof)
+                    if is_demo:
+                        good_client = exp
+                body = tlv8.encode([(pc.T_STATE, b"\x03")] + ([(pc.T_PUBLIC_KEY, A)] if a_sent else [])
+                                   + ([(pc.T_PROOF, proof)] if m_sent else []))
             elif op["op"] == "M5":
                 kind = "M5-" + op["mode"]
                 if op["mode"] == "replay":
                     body = m5_sent[op["i"] % len(m5_sent)] if m5_sent else tlv8.encode([(pc.T_STATE, b"\x05")])
                 else:
-                    K = {"sess": last_client.K if last_client else K_S0, "s0": K_S0,
-                         "random": bytes.fromhex(op["rand"])}[op["key"]]
+                    rnd_key = bytes.fromhex(op["rand"])
+                    K = {"sess": last_client.K if last_client else K_S0,
+                         "good": good_client.K if good_client else (last_client.K if last_client else K_S0),
+                         "s0": K_S0,
+                         "lastA": K_S0 if last_A_public else rnd_key,   # K for the last A, if public data give it
+                         "random": rnd_key}[op["key"]]
+                    m5_key, m5_public = K, op["key"] in ("s0", "random", "lastA")
                     ltsk = ed25519.Ed25519PrivateKey.from_private_bytes(bytes.fromhex(op["ctrl_seed"]))
                     ident = op["ident"].encode()
                     sub, ltpk = pc.m5_subtlv(K, ident, ltsk)
@@ -342,14 +376,15 @@ def run_plan(plan: Dict[str, Any]) -> Dict[str, Any]:
             # an M5 sealed under the session key that only the correct code yields for the current exchange
             # also demonstrates knowledge of the code (the shipped code pairs such a peer even when its M3
             # proof was garbled; C01 as worded does not forbid that)
-            m5_with_code_key = (op["op"] == "M5" and op.get("mode") == "new" and op["key"] == "sess"
-                                and code_key is not None and last_client is not None and last_client.K == code_key)
+            m5_with_code_key = (op["op"] == "M5" and op.get("mode") == "new" and not m5_public
+                                and code_key is not None and m5_key == code_key)
             r = sc.send(body, salt, secret, conn=op["conn"], idents=idents)
             o = outputs(r)
             # ---- the oracle: exactly what C01 states
             if o["O1"] and not is_demo:
                 viol.append([
-                    "C01:proof-issued-without-code:" + ("degenerate-A" if last_m3_kind == "degenerate" else "wrong-proof"),
+                    "C01:proof-issued-without-code:" + ("degenerate-A" if last_m3_kind == "degenerate" else
+                                                        "replayed-from-earlier-exchange" if op.get("mode") == "replay" else "wrong-proof"),
                     f"M4 carries the accessory's SRP proof although the M3 ({kind}) does not demonstrate knowledge of the setup code",
                 ])
             if (o["O2"] or o["O3"]) and not (demo or m5_with_code_key):
@@ -361,7 +396,7 @@ def run_plan(plan: Dict[str, Any]) -> Dict[str, Any]:
                     f"{kind} yields {what} (M6 identity / recorded pairing) although no M3 of the current exchange "
                     f"demonstrated knowledge of the setup code; pairings now: {len(r['paired'])}",
                 ])
-            if (o["O2"] or o["O3"]) and op["op"] == "M5" and op.get("mode") == "new" and op["key"] in ("s0", "random") \
+            if (o["O2"] or o["O3"]) and op["op"] == "M5" and op.get("mode") == "new" and m5_public \
                     and op["sub"] == "valid":
                 viol.append([
                     "C01:pairing-with-public-session-key",
@@ -372,6 +407,7 @@ def run_plan(plan: Dict[str, Any]) -> Dict[str, Any]:
             t = _parse(r) or {}
             if t.get(pc.T_STATE) == b"\x02" and pc.T_ERROR not in t and pc.T_SALT in t and pc.T_PUBLIC_KEY in t:
                 cur = (t[pc.T_SALT], t[pc.T_PUBLIC_KEY])
+                xch += 1
                 demo_elsewhere = demo_elsewhere or demo
                 demo = False
                 code_key = None
